@@ -97,6 +97,16 @@ def step (s : St) (op : List String) (impl : String) : LineOut St :=
       monitor := if impl == "lost=0 dup=0" then none
                  else if impl.startsWith "lost=" then some ("line-lost-or-duplicated", s!"racing the gate opening: {impl}")
                  else some ("malformed", impl) }
+  | ["lattach", _, _, k] =>
+    -- monitors attach and detach while several goroutines log: Write and RegisterHandler are each one critical
+    -- section of the same lock (`C29_logwriter_skeleton`), so a monitor receives a contiguous stretch of the write
+    -- order: per writer consecutive numbers, nothing twice (`C29_monitor_backlog`)
+    let expect := s!"attaches={k} dup=0 gap=0 back=0"
+    let m := if impl == expect then none
+      else if !impl.startsWith "attaches=" then some ("malformed", impl)
+      else if (impl.splitOn "dup=0").length < 2 then some ("attach-duplicate", s!"a monitor received a line twice while attaching under load: {impl}")
+      else some ("attach-gap", s!"a monitor missed or re-ordered lines while attached under load: {impl}")
+    { state := s, model := some expect, monitor := m }
   | ["lconc", c, k] =>
     -- k lines "o0".."o(k-1)" logged, then a monitor attaches while one more line is logged by another goroutine:
     -- RegisterHandler holds the writer's lock over the whole replay of the backlog (extracted lock shape,
